@@ -34,6 +34,10 @@ type totalCase struct {
 func scaleSource(shape string, n int) string {
 	var sb strings.Builder
 	switch shape {
+	case "redundant-parens":
+		sb.WriteString("print " + strings.Repeat("(", n) + "7" + strings.Repeat(")", n) + "\n")
+	case "many-errors":
+		sb.WriteString(strings.Repeat("print )\n", n) + "print 1\n")
 	case "nested-parens":
 		sb.WriteString("print " + strings.Repeat("1+(", n) + "1" + strings.Repeat(")", n) + "\n")
 	case "right-assoc-or":
@@ -129,7 +133,7 @@ func scaleSource(shape string, n int) string {
 		// reading the key of a completed child block yields the block itself as a value: every operator must cope with it
 		uses := []string{"eval b == b", "print b", "eval b + 1", "eval not b", "eval b and 1", "f = b", "eval b == 1", "eval -b",
 			"eval b < b", "print b == nil", "var v = b\n eval v == v", "eval 1 == b", "eval \"s\" + b", "eval \"s\" * b", "eval b != b", "f = b\n eval f == b"}
-		sb.WriteString("def a {\n def b { x = 1 }\n " + uses[n%len(uses)] + "\n}\n")
+		sb.WriteString("def a {\n def b { x = 1; y = 2; z = \"s\"; w = 4.5 }\n " + uses[n%len(uses)] + "\n}\n") // several fields: a rendering of the block has an order to get wrong
 	case "unmarshal-nested":
 		// bound blocks whose nested blocks / nil values / block values meet target fields of every Go kind (see totalTarget)
 		sb.WriteString([]string{
@@ -208,7 +212,7 @@ type totalRes struct {
 	Msg   string `json:"msg,omitempty"`
 }
 
-var totalAPIs = []string{"Parse", "Interpret", "Unmarshal", "ParseFile", "InterpretFile", "UnmarshalFile", "InterpretFile/z", "ParseFile/e"}
+var totalAPIs = []string{"Parse", "Interpret", "Unmarshal", "ParseFile", "InterpretFile", "UnmarshalFile", "InterpretFile/z", "ParseFile/e", "Interpret/o", "InterpretFile/o"}
 
 func runAPI(api string, src []byte) (r totalRes) {
 	r.API = api
@@ -222,6 +226,15 @@ func runAPI(api string, src []byte) (r totalRes) {
 		}
 	}()
 	opts := []bcl.Option{bcl.OptLogger(io.Discard), bcl.OptOutput(io.Discard)}
+	if strings.HasSuffix(api, "/o") {
+		// the "/o" entry points: the same calls with the listing, the trace and the statistics switched on
+		if len(src) > 20000 {
+			r.Class = "ok"
+			return r
+		}
+		api = strings.TrimSuffix(api, "/o")
+		opts = append(opts, bcl.OptDisasm(true), bcl.OptTrace(true), bcl.OptStats(true))
+	}
 	var err error
 	var t totalTarget
 	// the file variants get the input in 4096-byte pages, or (the "/z" entry points) in 8-byte reads each followed by a zero-byte read
@@ -422,6 +435,24 @@ func replayTotal(args []string) int {
 				sb, ok := ibind.(bcl.StructBinding)
 				if ierr != nil || !ok || len(ires) != 2 || sb.Value.Type != "target" || sb.Value.Name != "t" || !reflect.DeepEqual(sb.Value.Fields, map[string]any{"k": c.N}) {
 					s.bad(fmt.Sprintf("%s n=%d: the binding must be the one block of type target (name t, k = %d), got err=%v binding=%+v (%d result blocks)", c.Shape, c.N, c.N, ierr, ibind, len(ires)), "scale:binding", raw, fmt.Sprintf("%+v", ibind), true)
+				}
+			case want == "e":
+				if ierr == nil || strings.HasPrefix(ierr.Error(), "runtime error") || out.Len() != 0 || len(ires) != 0 {
+					s.bad(fmt.Sprintf("%s n=%d: must be rejected at compile time with nothing printed, got err=%v out=%q", c.Shape, c.N, ierr, trunc(out.Bytes(), 60)), "errscale:accepted", raw, string(trunc(out.Bytes(), 200)), true)
+					break
+				}
+				seen := map[int]bool{}
+				for _, l := range strings.Split(lg.String(), "\n") {
+					if m := reDiag.FindStringSubmatch(l); m != nil {
+						li, _ := strconv.Atoi(m[1])
+						seen[li] = true
+					}
+				}
+				for li := 1; li <= c.N; li++ {
+					if !seen[li] {
+						s.bad(fmt.Sprintf("%s n=%d: the broken statement on line %d has no diagnostic of its own (%d lines have one)", c.Shape, c.N, li, len(seen)), "errscale:diagnostic-missing", raw, string(trunc(lg.Bytes(), 300)), true)
+						break
+					}
 				}
 			case want == "r":
 				if ierr == nil || !strings.HasPrefix(ierr.Error(), "runtime error") {
